@@ -74,6 +74,7 @@ func (c05) Gen(r *rand.Rand, tier string, idx int) *core.Plan {
 	w["action"] = int64(core.Pick(r, 0, 0, 1, 2)) // enforce log skip
 	w["scheme"] = int64(r.IntN(2))
 	w["format"] = int64(r.IntN(2))
+	w["entry"] = int64(r.IntN(2)) // OCI or blob entry point
 	if r.IntN(12) == 0 {
 		p.Faults = append(p.Faults, rt.Fault{Task: 0, Op: "revocation.validate", Nth: r.IntN(int(w["rounds"])), Kind: "EIO"})
 	}
@@ -158,13 +159,13 @@ func (l c05) Exec(env *core.Env) *core.Result {
 				}
 			}
 			faultsBefore := task.FaultsSeen
-			outcome, verr := v.Verify(ctx, desc, sig, notation.VerifierVerifyOptions{ArtifactReference: "registry.example/repo@" + desc.Digest.String(), SignatureMediaType: format})
+			outcome, verr := verifyEntry(ctx, v, w["entry"], desc, sig, format)
 			injected := task.FaultsSeen != faultsBefore
 			var vs []string
 			for _, r := range vector {
 				vs = append(vs, r.String())
 			}
-			key := fmt.Sprintf("round=%d n=%d vector=%v answer=%d short=%d injected=%v legacy=%d action=%s scheme=%d", k, n, vs, answer, val.Short, injected, w["legacy"], action, w["scheme"])
+			key := fmt.Sprintf("round=%d n=%d vector=%v answer=%d short=%d injected=%v legacy=%d action=%s scheme=%d entry=%d", k, n, vs, answer, val.Short, injected, w["legacy"], action, w["scheme"], w["entry"])
 			sim.Abstract(fmt.Sprint(key, val.Methods, verr == nil))
 			allGood := true
 			anyRevoked := false
